@@ -155,6 +155,20 @@ Theorem C07_success_means_accepted : forall e S K G vs x l a' o id,
 Proof. exact success_registered_accepted. Qed.
 Print Assumptions C07_success_means_accepted.
 
+(*    The resolution counter: whenever a step of A counts a datagram as acknowledged (stats.acked
+      goes up), A is processing a datagram it opens, every pending datagram that d names has been
+      accepted by B (acked_accepted, the statement of C07_acked_means_accepted), and there is one. *)
+Theorem C07_ack_counted_means_accepted : forall e S K G vs x l a' o,
+  J S K G -> wf2_run e G (vs ++ [(NA x, l)]) ->
+  let G' := grun e G vs in
+  step e (nA (g_net G')) x = (a', o) -> c_acked (nA (g_net G')) < c_acked a' ->
+  exists a0 d s t i dA,
+    pre_recv (nA (g_net G')) x = Some (a0, d) /\ opens a0 d = true /\ acked_accepted G' a0 d /\
+    In (s, t) (c_packs a0) /\ hdr_acks (h_ack (d_hdr d)) (h_ackbits (d_hdr d)) s = true /\
+    s = wire i /\ In i (idx_acc (g_B G')) /\ In (i, dA) (g_AB G') /\ h_seq (d_hdr dA) = s /\ In dA (g_accB G').
+Proof. exact ack_counted_means_accepted. Qed.
+Print Assumptions C07_ack_counted_means_accepted.
+
 (*    Short sessions: while A has consumed at most HALF + 1 = 32768 sequence numbers, (near) and
       (fresh) hold by themselves — (auth) alone (Net2.auth_ev) is enough. *)
 Theorem C07_short_sessions : forall e S K vs G, J S K G -> auth_run e G vs -> wf2_run e G vs.
